@@ -973,6 +973,95 @@ def shared_state(srcs):
     return found
 
 
+def server_ctor(srv, fn):
+    """the struct literal a constructor of `HttpServer` returns, as the model's initial server: (limit, hasKill, conns
+    empty) — `payload_max_size: <const or number>`, `kill_switch: None`, `connections: HashMap::new()`; other fields are
+    the OS resources. None if the literal is not of that shape."""
+    body = fn_body(srv, "HttpServer", fn)
+    if body is None:
+        return None
+    m = re.search(r"Ok\(\s*(?:Self|HttpServer)\s*\{(.*?)\}\s*\)", body, flags=re.S)
+    if not m:
+        return None
+    fields = {}
+    for part in split_args(m.group(1)):
+        part = part.strip()
+        if not part:
+            continue
+        if ":" in part:
+            k, v = part.split(":", 1)
+            fields[k.strip()] = re.sub(r"\s+", "", v)
+        else:
+            fields[part] = part
+    if set(fields) != {"socket", "epoll", "kill_switch", "connections", "payload_max_size"}:
+        return None
+    lim = fields["payload_max_size"]
+    if lim == "MAX_PAYLOAD_SIZE":
+        lim = const_nat(srv, "MAX_PAYLOAD_SIZE")
+    elif re.fullmatch(r"[0-9_]+", lim):
+        lim = int(lim.replace("_", ""))
+    else:
+        return None
+    if lim is None or fields["connections"] != "HashMap::new()" or fields["kill_switch"] not in ("None", "Some"):
+        return None
+    if fields["socket"] != "socket" or fields["epoll"] != "epoll":
+        return None
+    return f"({lim}, {'false' if fields['kill_switch'] == 'None' else 'true'}, true)"
+
+
+def struct_literal_fields(body):
+    m = re.search(r"\bSelf\s*\{", body)
+    if not m:
+        return None
+    blk = block_after(body, m.start())
+    if blk is None:
+        return None
+    fields = {}
+    for part in split_args(blk.strip()[1:-1]):
+        part = part.strip()
+        if not part:
+            continue
+        if ":" in part:
+            k, v = part.split(":", 1)
+            fields[k.strip()] = re.sub(r"\s+", "", v)
+        else:
+            fields[part] = part
+    return fields
+
+
+def conn_ctor(conn, srv):
+    """`HttpConnection::new`: (state, read_cursor, body_vec empty, body_bytes_to_be_read, pending none, parsed empty, queue
+    empty, response buffer none, files empty, limit) as the literal says"""
+    body = fn_body(conn, "HttpConnection<T>", "new")
+    f = struct_literal_fields(body) if body else None
+    want = {"pending_request", "stream", "state", "buffer", "read_cursor", "body_vec", "body_bytes_to_be_read", "parsed_requests",
+            "response_queue", "response_buffer", "files", "payload_max_size"}
+    if not f or set(f) != want or f["stream"] != "stream":
+        return None
+    empty = {"vec![]", "Vec::new()", "VecDeque::new()", "Default::default()"}
+    st = re.fullmatch(r"ConnectionState::(\w+)", f["state"])
+    lim = const_nat(srv, "MAX_PAYLOAD_SIZE") if f["payload_max_size"] == "MAX_PAYLOAD_SIZE" else (int(f["payload_max_size"]) if f["payload_max_size"].isdigit() else None)
+    if not st or lim is None or not f["read_cursor"].isdigit() or not f["body_bytes_to_be_read"].isdigit():
+        return None
+    if not re.fullmatch(r"\[0;BUFFER_SIZE\]", f["buffer"]):
+        return None
+    b = lambda x: "true" if x else "false"
+    return (f"({lean_str(st.group(1))}, {int(f['read_cursor'])}, {b(f['body_vec'] in empty)}, {int(f['body_bytes_to_be_read'])}, {b(f['pending_request'] == 'None')}, "
+            f"{b(f['parsed_requests'] in empty)}, {b(f['response_queue'] in empty)}, {b(f['response_buffer'] == 'None')}, {b(f['files'] in empty)}, {lim})")
+
+
+def client_ctor(srv):
+    """`ClientConnection::new`: (state, in-flight count)"""
+    body = fn_body(srv, "ClientConnection<T>", "new")
+    f = struct_literal_fields(body) if body else None
+    if not f or set(f) != {"connection", "state", "in_flight_response_count"} or f["connection"] != "connection":
+        return None
+    st = re.fullmatch(r"ClientConnectionState::(\w+)", f["state"])
+    if not st or not f["in_flight_response_count"].isdigit():
+        return None
+    return f"({lean_str(st.group(1))}, {int(f['in_flight_response_count'])})"
+
+
 def interior_mutability(srcs):
     """types with interior mutability mentioned anywhere in the non-test source: the model takes every `&self` method
     (write_all, the getters, handle_http_request, …) to be a function of the value it is called on"""
@@ -1013,6 +1102,10 @@ def main():
     nat("EVENT_ARRAY_EXTRA", int(m.group(1)) if m else None)
     # `if self.connections.len() == MAX_CONNECTIONS` — the capacity test is an equality
     nat("CAPACITY_TEST_IS_EQ", 1 if re.search(r"connections\.len\(\)\s*==\s*MAX_CONNECTIONS", srv) else None)
+    items.append(("connNew", "String × Nat × Bool × Nat × Bool × Bool × Bool × Bool × Bool × Nat", conn_ctor(conn, srv)))
+    items.append(("clientNew", "String × Nat", client_ctor(srv)))
+    items.append(("serverNew", "Nat × Bool × Bool", server_ctor(srv, "new")))
+    items.append(("serverNewFromFd", "Nat × Bool × Bool", server_ctor(srv, "new_from_fd")))
     byts("SERVER_FULL_ERROR_MESSAGE", const_bytes(srv, "SERVER_FULL_ERROR_MESSAGE"))
     byts("HTTP_SCHEME_PREFIX", const_bytes(req, "HTTP_SCHEME_PREFIX"))
     nat("CRLF_LEN", const_nat(common, "CRLF_LEN"))
